@@ -351,6 +351,31 @@ fn prop(t: &mut Tape, st: &mut Stats) -> Result<(), Failure> {
             model::diff(&model::from_toml_value(&back), &want_v, Cmp::SERDE)
                 .map_err(|e| Failure::new("formatter", format!("{who} changed more than the layout: {e}\n--- input\n{}\n--- output\n{text}\n---", r.text), case()))?;
             st.class("formatter-visitor-checked");
+            // the pretty formatters give *every* array the same treatment, wherever it is nested
+            if who.contains("pretty") {
+                struct Arrays(Vec<(usize, bool, bool)>);
+                impl<'d> Visit<'d> for Arrays {
+                    fn visit_array(&mut self, node: &'d toml_edit::Array) {
+                        let multiline = node.iter().all(|e| e.decor().prefix().and_then(|p| p.as_str()).map(|p| p.starts_with('\n')).unwrap_or(false));
+                        self.0.push((node.len(), node.trailing_comma(), multiline));
+                        toml_edit::visit::visit_array(self, node);
+                    }
+                }
+                let pd: DocumentMut = text.parse().map_err(|e| Failure::new("formatter", format!("{who}: {e}\n{text}"), case()))?;
+                let mut arrays = Arrays(vec![]);
+                arrays.visit_document(&pd);
+                // (which layout is the formatter's choice; that it is the same for every array of
+                // the same size class, whatever it is nested in, is what "visits all of them" means)
+                for long in [false, true] {
+                    let group: Vec<&(usize, bool, bool)> = arrays.0.iter().filter(|(len, _, _)| (*len >= 2) == long && *len > 0).collect();
+                    if let Some(first) = group.first() {
+                        if let Some(odd) = group.iter().find(|a| (a.1, a.2) != (first.1, first.2)) {
+                            return Err(Failure::new("formatter-layout", format!("{who}: arrays of the same size class are laid out differently depending on where they are nested: one of {} elements has (trailing comma, one element per line) = ({}, {}), another of {} elements has ({}, {})\n--- output\n{text}\n---", first.0, first.1, first.2, odd.0, odd.1, odd.2), case()));
+                        }
+                        st.class(if long { "pretty-array.multi-element" } else { "pretty-array.single-element" });
+                    }
+                }
+            }
         }
     }
     st.sample(|| json!({"text": r.text, "events": expected.len(), "first_events": expected.iter().take(12).collect::<Vec<_>>()}));
